@@ -109,6 +109,19 @@ def gen_writestorms(rng, n):
     return out
 
 
+def gen_delraces(rng, n):
+    """per goroutine one key of its own: write a blob, then four Store-level deletes of it at the same moment -
+    exactly one of them may report that it removed the blob; repeated 150-250 times, recorded compactly"""
+    out = []
+    for _ in range(n):
+        procs = rng.choice([2, 3])
+        plan = [[{"op": "sdelrace", "k": p + 1, "c": "c1", "d": "", "m": "m0", "par": rng.choice([3, 4, 4]),
+                  "ds": [rng.choice(["a", "b", "L"]) for _ in range(rng.randint(150, 250))]}] for p in range(procs)]
+        out.append({"ev": "reset", "vttl": "", "procs": procs, "keys": list(range(1, procs + 1)), "cookies": ["c1"],
+                    "vols": 2, "plan": plan})
+    return out
+
+
 def nontrivial(lines):
     # at least two processes had overlapping operations on the same key, one of them a write or delete
     open_ops = {}
@@ -161,6 +174,8 @@ def run(ctx):
                 for r in gen_storeplans(rng, n):
                     f.write(json.dumps(r) + "\n")
                 for r in gen_writestorms(rng, max(12, n // 16)):
+                    f.write(json.dumps(r) + "\n")
+                for r in gen_delraces(rng, max(8, n // 25)):
                     f.write(json.dumps(r) + "\n")
         # the race detector's reports are recorded, not judged (C38 does not state race freedom; the pinned tree
         # has a read/write race on Volume.Version() in every run): keep the driver's exit code at 0
